@@ -36,3 +36,6 @@ Proof. revert ql. induction l as [|x t IH]; intros [|q r] H; inversion H; subst;
   - reflexivity.
   - change (xsum (x :: t)) with (xadd x (xsum t)). rewrite (IH r) by assumption.
     destruct x; simpl in *; try tauto. lra. Qed.
+
+(* admissible discount distances: 0, a positive finite number, +inf *)
+Definition disc_ok (d : xv) : Prop := match d with XFin q => 0 <= q | XInf true => True | _ => False end.
